@@ -183,7 +183,7 @@ func TestVerifC01(t *testing.T) {
 	r := h.Start("C01")
 	defer r.Finish(func(s string) { t.Error(s) })
 	env := genEnv()
-	r.Set("rule", "choice vectors of the traceback-printer model: (a) all vectors with <= bound deviations from the plainest dump over format, goroutine count, id, every state string of the installed runtimes, tails, minutes, lock, stack shapes (1..150 frames, both elision markers, unavailable), creator forms, 40 symbol shapes, 14 file shapes, all argument trees <=4 nodes/depth<=3 + specials, leaf value rotations, surrounding text; (b) full product of the format dimensions x 3 contents, each parsed with no option and with every later stage on (naming, path guessing, source analysis); (c) full symbol x file product at stack and creator position; (d) a function line / argument list / file line of 16383..200000 bytes in the second of three goroutines, LF and CRLF. non-trivial = at least one deviation from the default dump; distinct = choice vector")
+	r.Set("rule", "choice vectors of the traceback-printer model: (a) all vectors with <= bound deviations from the plainest dump over format, goroutine count, id, every state string of the installed runtimes, tails, minutes, lock, stack shapes (1..150 frames, both elision markers, unavailable), creator forms, 40 symbol shapes, 14 file shapes, all argument trees <=4 nodes/depth<=3 + specials, leaf value rotations, surrounding text; (b) full product of the format dimensions x 3 contents, each parsed with no option and with every later stage on (naming, path guessing, source analysis); (c) full symbol x file product at stack and creator position; (d) a function line / argument list / file line of 16383..200000 bytes in the second of three goroutines, LF and CRLF; (e) two goroutines with the same frames and arguments differing in exactly one attribute of one argument or of the header, under five combinations of the later stages. non-trivial = at least one deviation from the default dump; distinct = choice vector")
 	r.Set("assumptions", []string{"the printer model (verifx/gen/dump.go) is faithful to runtime/traceback.go of the installed toolchains (state strings are read from their sources at check time)", "ground truth comparison covers ID, First, State, Sleep, Locked, per frame Func.{Complete,ImportPath,Name}, RemoteSrcPath, Line, SrcName, argument trees incl. IsPtr as a function of the value, creator, Stack.Elided"})
 	r.Set("states_in_alphabet", len(env.States))
 	bound := r.Pick(2, 3)
@@ -318,6 +318,85 @@ func TestVerifC01(t *testing.T) {
 	}
 	if r.Shard == 0 {
 		r.Add("long_line_dumps_part_d", nd)
+	}
+	// (e) twins: the third goroutine repeats the second one's frames and arguments and
+	// differs in exactly one attribute of one argument (a "?" mark, "_", the value, a
+	// nested field, the trailing "...") or of the header; parsed under every combination
+	// of the stages that run after the parser (naming, path guessing, source analysis)
+	type twinEdit struct {
+		name string
+		edit func(g *gen.Goroutine)
+	}
+	baseArgs := func() gen.Args {
+		return gen.Args{Vals: []gen.Arg{{Val: 0xc000012340}, {Agg: true, Fields: gen.Args{Vals: []gen.Arg{{Val: 0x2}, {Val: 0xc000045678}}}}, {Val: 0x7}}}
+	}
+	edits := []twinEdit{
+		{"identical", func(g *gen.Goroutine) {}},
+		{"inaccurate-top", func(g *gen.Goroutine) { g.Calls[0].Args.Vals[0].Inaccurate = true }},
+		{"inaccurate-last", func(g *gen.Goroutine) { g.Calls[0].Args.Vals[2].Inaccurate = true }},
+		{"inaccurate-nested", func(g *gen.Goroutine) { g.Calls[0].Args.Vals[1].Fields.Vals[1].Inaccurate = true }},
+		{"too-large", func(g *gen.Goroutine) { g.Calls[0].Args.Vals[2] = gen.Arg{TooLarge: true} }},
+		{"value", func(g *gen.Goroutine) { g.Calls[0].Args.Vals[2].Val = 0x8 }},
+		{"pointer", func(g *gen.Goroutine) { g.Calls[0].Args.Vals[0].Val = 0xc0000789a0 }},
+		{"nested-value", func(g *gen.Goroutine) { g.Calls[0].Args.Vals[1].Fields.Vals[0].Val = 0x3 }},
+		{"elided", func(g *gen.Goroutine) { g.Calls[0].Args.Elided = true }},
+		{"nested-elided", func(g *gen.Goroutine) { g.Calls[0].Args.Vals[1].Fields.Elided = true }},
+		{"minutes", func(g *gen.Goroutine) { g.Minutes = 7 }},
+		{"locked", func(g *gen.Goroutine) { g.Locked = true }},
+		{"second-frame-inaccurate", func(g *gen.Goroutine) { g.Calls[1].Args.Vals[0].Inaccurate = true }},
+	}
+	optSets := []struct {
+		tag  string
+		opts func() *Opts
+	}{
+		{"", plainOpts},
+		{":naming", func() *Opts { return &Opts{NameArguments: true} }},
+		{":guess-paths", func() *Opts { return &Opts{GuessPaths: true} }},
+		{":naming+guess-paths", func() *Opts { return &Opts{NameArguments: true, GuessPaths: true} }},
+		{":all-stages-on", DefaultOpts},
+	}
+	ne := 0
+	for _, ed := range edits {
+		for _, first := range []bool{false, true} {
+			for _, os := range optSets {
+				ne++
+				key := fmt.Sprintf("e:%s twin-first=%v%s", ed.name, first, os.tag)
+				if !r.MineIdx(ne) {
+					continue
+				}
+				d := gen.GenDump(fixedChooser{"goroutines": 2}, env)
+				if len(d.Gs) != 3 || len(d.Gs[1].Calls) == 0 {
+					continue
+				}
+				mkG := func(id int) gen.Goroutine {
+					g := d.Gs[1]
+					g.ID = id
+					c0 := g.Calls[0]
+					c0.Args = baseArgs()
+					c1 := c0
+					c1.Name, c1.Line = c0.Name+"2", c0.Line+3
+					c1.Args = gen.Args{Vals: []gen.Arg{{Val: 0xc000012340}}}
+					g.Calls = []gen.Call{c0, c1}
+					return g
+				}
+				a, b := mkG(21), mkG(22)
+				if first {
+					ed.edit(&a)
+				} else {
+					ed.edit(&b)
+				}
+				d.Gs[1], d.Gs[2] = a, b
+				v := r.Check(func() *h.Viol { return checkDumpParseOpts(d, "", "exit status 2\n", key, os.opts(), os.tag) })
+				out := "ok"
+				if v != nil {
+					out = v.Fingerprint
+				}
+				r.Record(key, true, out)
+			}
+		}
+	}
+	if r.Shard == 0 {
+		r.Add("twin_dumps_part_e", ne)
 	}
 }
 
